@@ -84,6 +84,9 @@ type step struct {
 	At     int64    `json:"at_ns"`            // offset from the base instant
 	NewW   int      `json:"new_window_s,omitempty"`
 	Tag    string   `json:"tag,omitempty"`
+	// the gateway's metrics collection reads the counters (RateLimitState.Counters, the quota_used gauge of the
+	// plugin) before this step: 1 = at the step's own instant, 2 = half-way between the previous step and this one
+	Read int `json:"metrics_read,omitempty"`
 	// realloc: the policies are applied again with other percentages for the remedy's groups (same remedy
 	// name, allowed count and window): per listed group, then the default percentage
 	NewPcts []float64 `json:"new_percentages,omitempty"`
@@ -104,6 +107,7 @@ type verdict struct {
 
 type harness struct {
 	clk    *vclock
+	state  limit.IncrementableRateLimitState
 	plugin *remedies.StrategyBasedThrottlingPlugin
 	scoped map[string]config.ScopedRemedy
 	seq    int
@@ -118,7 +122,7 @@ func newHarness() (*harness, error) {
 	if err != nil {
 		return nil, err
 	}
-	return &harness{clk: clk, plugin: plugin, scoped: map[string]config.ScopedRemedy{}}, nil
+	return &harness{clk: clk, state: state, plugin: plugin, scoped: map[string]config.ScopedRemedy{}}, nil
 }
 
 func (h *harness) scopedFor(rs remedySpec, w int) config.ScopedRemedy {
@@ -213,8 +217,20 @@ func run(c caseSpec, keep func(remedy int, group string) bool) (map[int][]verdic
 	}
 	out := map[int][]verdict{}
 	cur := append([]remedySpec(nil), c.Remedies...)
+	last := int64(0)
 	for i, s := range c.Steps {
 		rs := cur[s.Remedy]
+		if s.Read != 0 && (s.Kind == "req" || s.Kind == "burst") {
+			at := s.At
+			if s.Read == 2 {
+				at = last + (s.At-last)/2
+			}
+			h.clk.Set(baseNs + at)
+			_ = h.state.Counters()
+		}
+		if s.Kind == "req" || s.Kind == "burst" {
+			last = s.At
+		}
 		switch s.Kind {
 		case "realloc":
 			cur[s.Remedy] = withPcts(rs, s.NewPcts)
@@ -625,6 +641,7 @@ type intent struct {
 	Others []int // burst: group index per extra concurrent caller (-1 = same as Group)
 	NewW   int
 	Pcts   []float64
+	Read   int
 }
 
 func genIntent(o genOpts) *rapid.Generator[intent] {
@@ -665,6 +682,7 @@ func genIntent(o genOpts) *rapid.Generator[intent] {
 			in.DK = rapid.SampledFrom([]int{0, 0, 1}).Draw(t, "dk")
 		}
 		in.Group = rapid.IntRange(0, 2).Draw(t, "group")
+		in.Read = rapid.SampledFrom([]int{0, 0, 0, 0, 0, 1, 2}).Draw(t, "metrics-read")
 		if in.Kind == "burst" {
 			in.Others = rapid.SliceOfN(rapid.SampledFrom([]int{-1, -1, -1, -1, -1, -1, -1, 0, 1, 2}), 1, 31).Draw(t, "others")
 		}
@@ -721,7 +739,7 @@ func genCase(t *rapid.T, o genOpts) caseSpec {
 			at++ // every grid instant is a whole second: stay off the grid
 		}
 		now = at
-		s := step{Kind: in.Kind, Remedy: ri, At: at, Tag: tag}
+		s := step{Kind: in.Kind, Remedy: ri, At: at, Tag: tag, Read: in.Read}
 		g := gv[in.Group%len(gv)]
 		if in.Kind == "req" {
 			s.Group = g
@@ -938,6 +956,37 @@ func TestWitnessBoundaryInstant(t *testing.T) {
 				continue
 			}
 			t.Fatalf("%s", r.Fail(caseRepr(w.c, w.o, &f), "witness %s, step %d: %s", w.name, f.Step, f.Msg))
+		}
+	}
+}
+
+// TestRegressionMetricsReadAfterResize: the history that exposed the defect repaired by commit fe4454e (a metrics
+// read between a window-size change and the remedy's next request settled the window with the stale size).
+func TestRegressionMetricsReadAfterResize(t *testing.T) {
+	r := ev.New(t, "C09")
+	for _, read := range []int{1, 2} {
+		c := caseSpec{
+			Remedies: []remedySpec{{Name: "r0", Allowed: 1, W: 1}},
+			Steps: []step{
+				{Kind: "req", Remedy: 0, At: 0, Tag: "same"},
+				{Kind: "resize", Remedy: 0, NewW: 4, At: 5_999_999_999},
+				{Kind: "req", Remedy: 0, At: 5_999_999_999, Tag: "same", Read: read},
+				{Kind: "req", Remedy: 0, At: 6_007_999_999, Tag: "rnd"},
+				{Kind: "req", Remedy: 0, At: 7_999_999_999, Tag: "-1ns", Read: read},
+				{Kind: "req", Remedy: 0, At: 8_000_000_001, Tag: "+1ns"},
+			},
+		}
+		r.Case()
+		obs, err := run(c, nil)
+		if err != nil {
+			t.Fatalf("%s", r.Fail(caseRepr(c, nil, nil), "%v", err))
+		}
+		js := &judgeStats{classes: map[string]int64{}}
+		fs := judge(c, obs, js)
+		r.NonTrivial(ev.JSON(c), func() any { return c })
+		if len(fs) > 0 {
+			f := fs[0]
+			t.Fatalf("%s", r.Fail(caseRepr(c, obs, &f), "step %d: %s", f.Step, f.Msg))
 		}
 	}
 }
